@@ -28,6 +28,18 @@ def showPt : Pt → String
   | none => "inf"
   | some (x, y) => s!"{x},{y}"
 
+/-- configuration suffix of a curve token -/
+def configOf (s : String) : String := ((s.splitOn "/").drop 1).headD "pure"
+
+/-- the OpenSSL class returns `self.Point(x, y)` with the coordinates OpenSSL hands back, which are reduced;
+the pure ladder hands an operand back as given when the scalar is ≡ 1.  Same group element. -/
+def reducePt (c : CurveParams) : Pt → Pt
+  | none => none
+  | some (x, y) => some (Pycoin.fmod x c.p, Pycoin.fmod y c.p)
+
+def viaBackend (cfg : String) (c : CurveParams) (r : Except Err Pt) : Except Err Pt :=
+  if cfg = "openssl" then r.map (reducePt c) else r
+
 def showRes {α} (f : α → String) : Except Err α → String
   | .ok a => "ok " ++ f a
   | .error e => "err " ++ e.tag
@@ -47,14 +59,25 @@ def kRange (n : Nat) : List Int := (List.range (4 * n + 1)).map fun (i : Nat) =>
 
 def handle : Handler := fun op args =>
   match op, args with
+  -- operands are built with `generator.Point(x, y)`, which raises NoSuchPointError off the curve
   | "ec_add", [c, P, Q] => do
-    some (showRes showPt (add (← parseCurve? c) (← parsePt? P) (← parsePt? Q)))
+    let c ← parseCurve? c; let P ← parsePt? P; let Q ← parsePt? Q
+    if ¬ (containsPoint c P ∧ containsPoint c Q) then some "err NoSuchPointError" else
+    some (showRes showPt (add c P Q))
   | "ec_sub", [c, P, Q] => do
-    some (showRes showPt (sub (← parseCurve? c) (← parsePt? P) (← parsePt? Q)))
+    let c ← parseCurve? c; let P ← parsePt? P; let Q ← parsePt? Q
+    if ¬ (containsPoint c P ∧ containsPoint c Q) then some "err NoSuchPointError" else
+    some (showRes showPt (sub c P Q))
   | "ec_neg", [c, P] => do
-    some (showRes showPt (neg (← parseCurve? c) (← parsePt? P)))
-  | "ec_mul", [c, P, k] => do
-    some (showRes showPt (multiply (← parseCurve? c) (← parsePt? P) (← parseInt? k)))
+    let c ← parseCurve? c; let P ← parsePt? P
+    if ¬ containsPoint c P then some "err NoSuchPointError" else
+    some (showRes showPt (neg c P))
+  | "ec_mul", [ct, P, k] => do
+    let c ← parseCurve? ct
+    let P ← parsePt? P
+    -- `self.Point(*P)` happens before either backend is entered
+    if ¬ containsPoint c P then some "err NoSuchPointError" else
+    some (showRes showPt (viaBackend (configOf ct) c (multiply c P (← parseInt? k))))
   | "ec_rawmul", [c, k] => do
     some (showRes showPt (rawMul (← parseCurve? c) (← parseInt? k)))
   | "ec_blindmul", [c, k, b] => do
@@ -66,6 +89,7 @@ def handle : Handler := fun op args =>
   | "ec_assoc", [c, P, Q, R] => do
     let c ← parseCurve? c
     let P ← parsePt? P; let Q ← parsePt? Q; let R ← parsePt? R
+    if ¬ (containsPoint c P ∧ containsPoint c Q ∧ containsPoint c R) then some "err NoSuchPointError" else
     let l := match add c P Q with | .ok s => add c s R | .error e => .error e
     let r := match add c Q R with | .ok s => add c P s | .error e => .error e
     match l, r with
@@ -96,8 +120,9 @@ def handle : Handler := fun op args =>
     some ("ok " ++ showBool (containsPoint (← parseCurve? c) (← parsePt? P)))
   | "ec_sqrt", [c, a] => do
     some s!"ok {modularSqrt (← parseCurve? c) (← parseInt? a)}"
-  | "ec_shared", [c, d, Q] => do
-    some (showRes showPt (sharedPublicKey (← parseCurve? c) (← parseInt? d) (← parsePt? Q)))
+  | "ec_shared", [ct, d, Q] => do
+    let c ← parseCurve? ct
+    some (showRes showPt (viaBackend (configOf ct) c (sharedPublicKey c (← parseInt? d) (← parsePt? Q))))
   | "ec_gen_init", [c, b] => do
     let c ← parseCurve? c
     some (showRes (fun _ => "1") (generatorInit c (Pycoin.fmod (← parseInt? b) c.n)))
